@@ -467,7 +467,46 @@ func (R *Renderer) fieldOf(base ssa.Value, field int, at ssa.Instruction) string
 		}
 		return allocName(a) + "." + name
 	}
+	// a pointer that merges nil with ONE other value is that value wherever a field of it is
+	// accessed (with nil the access panics): `res, err := helper()` with `return nil, err` exits
+	if v := nonNilAlternative(base, 0); v != nil {
+		base = v
+	}
 	return strings.TrimPrefix(R.V(base), "&") + "." + name
+}
+
+// nonNilAlternative: v is a phi (of phis) all of whose operands are the nil constant except for
+// one distinct value: that value.
+func nonNilAlternative(v ssa.Value, depth int) ssa.Value {
+	p, ok := v.(*ssa.Phi)
+	if !ok || depth > 3 {
+		return nil
+	}
+	var alt ssa.Value
+	sawNil := false
+	for _, e := range p.Edges {
+		if isNilConst(e) {
+			sawNil = true
+			continue
+		}
+		if e == ssa.Value(p) {
+			continue
+		}
+		if q := nonNilAlternative(e, depth+1); q != nil {
+			e = q
+		}
+		if alt != nil && alt != e {
+			return nil
+		}
+		alt = e
+	}
+	if !sawNil && depth == 0 {
+		// a phi of one value only (all operands equal) is that value as well
+		if alt == nil {
+			return nil
+		}
+	}
+	return alt
 }
 
 func (R *Renderer) load(x *ssa.UnOp) string {
